@@ -849,11 +849,15 @@ impl<'r> ReplacementArray {
         // this could also be done in a final cleanup of the entire string (where we remove any markers),
         //   but the match is harder (rust regex lacks look behind pattern match) and it is less efficient
         // Note: we skip the first string since it can't be repetitive of something at this level
+        #[cfg(mathcat_verif)]
+        let strings_before_optional_removal = replacement_strings.clone();
         for i in 1..replacement_strings.len()-1 {
             if let Some(bytes) = is_repetitive(&replacement_strings[i-1], &replacement_strings[i])  {
                 replacement_strings[i] = bytes.to_string();
             } 
         }
+        #[cfg(mathcat_verif)]
+        verif::log_array(&strings_before_optional_removal, &replacement_strings);
                         
         for i in 0..replacement_strings.len() {
             if replacement_strings[i].contains(PAUSE_AUTO_STR) {
@@ -2775,4 +2779,26 @@ mod tests {
     //     assert_eq!(result.unwrap(), r#"DEBUG(*[2]/*[3][DEBUG(text()='(')], "DEBUG(*[2]/*[3][DEBUG(text()='(')], \"text()='(')]\")"#);
     // }
 
+}
+
+#[cfg(mathcat_verif)]
+/// Verification hooks (compiled only with `--cfg mathcat_verif`)
+pub mod verif {
+    thread_local!{
+        static ARRAY_LOG: std::cell::RefCell<Vec<(Vec<String>, Vec<String>)>> = const { std::cell::RefCell::new(vec![]) };
+    }
+
+    /// records one call of replace_array_string: the non-empty replacement strings before and after the removal of repetitive optional text
+    pub fn log_array(before: &[String], after: &[String]) {
+        ARRAY_LOG.with(|log| {
+            let mut log = log.borrow_mut();
+            if log.len() < 20000 && before.len() > 1 {
+                log.push((before.to_vec(), after.to_vec()));
+            }
+        });
+    }
+
+    pub fn take_array_log() -> Vec<(Vec<String>, Vec<String>)> {
+        return ARRAY_LOG.with(|log| log.replace(vec![]));
+    }
 }
